@@ -688,6 +688,22 @@ def rule_sibling(prog: Program) -> List[Instance]:
                                 drop = True
         out.append(Instance("R-SIBLING", f"{q}#stale-crs-coord-dropped", OK if drop else BAD,
                             "the source's CRS coordinate is excluded from the result" if drop else "the source's CRS coordinate survives into the result", f.where()))
+    # (iv) the Dataset variant must not hand the per-variable results to Dataset.map(): xarray's map owns
+    # the attribute policy (copies the *source* variables' attributes back over the results, or clears
+    # them), so the attributes computed by the DataArray sibling - spatial ones pruned, nodata updated -
+    # never reach the output
+    fds = prog.func("_xr_interop:_xr_reproject_ds")
+    per_var = {nf.name for nf in fds.nested.values() if any(isinstance(c, ast.Call) and call_name(c) == "_xr_reproject_da" for c in walk_own(nf.node))}
+    maps = [n for n in walk_own(fds.node) if isinstance(n, ast.Call) and isinstance(n.func, ast.Attribute) and n.func.attr in ("map", "apply") and any(isinstance(a, ast.Name) and a.id in per_var for a in n.args)]
+    direct = [n for n in walk_own(fds.node) if isinstance(n, ast.Call) and not (isinstance(n.func, ast.Attribute) and n.func.attr in ("map", "apply")) and isinstance(n.func, ast.Name) and n.func.id in per_var] + \
+             [c for n in ast.walk(fds.node) if isinstance(n, (ast.DictComp, ast.ListComp, ast.GeneratorExp)) for c in ast.walk(n) if isinstance(c, ast.Call) and isinstance(c.func, ast.Name) and c.func.id in per_var]
+    if maps:
+        out.append(Instance("R-SIBLING", f"{fds.qual}#var-attrs", BAD,
+                            f"`{short(maps[0], 50)}` routes the per-variable results through Dataset.map(): the installed xarray copies the source variables' attributes back over them (stale crs/grid_mapping, nodata not updated from dst_nodata)", fds.where(maps[0])))
+    elif direct:
+        out.append(Instance("R-SIBLING", f"{fds.qual}#var-attrs", OK, "output variables are the per-variable results themselves (attributes as computed by the DataArray sibling)", fds.where(direct[0])))
+    else:
+        out.append(Instance("R-SIBLING", f"{fds.qual}#var-attrs", INFO, "per-variable reprojection helper not recognised", fds.where(), nontrivial=False))
     # DataArray variant sets grid_mapping encoding
     f = prog.func("_xr_interop:_xr_reproject_da")
     gm = any(isinstance(n, ast.Assign) and isinstance(n.targets[0], ast.Subscript) and "encoding" in short(n.targets[0]) and "grid_mapping" in short(n.targets[0]) for n in walk_own(f.node))
